@@ -4,13 +4,15 @@ Imports only `MdVerif.Model.*` / `MdVerif.Driver.*` (core Lean, no Mathlib) so t
 -/
 import MdVerif.Driver.Cursor
 import MdVerif.Driver.Traj
-open MdVerif MdVerif.Driver MdVerif.Driver.TrajP
+import MdVerif.Driver.Topo
+open MdVerif MdVerif.Driver MdVerif.Driver.TrajP MdVerif.Driver.TopoP
 
 def handle (line : String) : String :=
   let ws := (line.splitOn " ").filter (· ≠ "")
   match ws with
   | "cursor" :: _ | "spec" :: _ | "load" :: _ | "loadframe" :: _ | "iter" :: _ => handleCursor ws
   | "traj" :: _ | "key" :: _ => handleTraj ws
+  | "topsubset" :: _ | "topjoin" :: _ | "toprows" :: _ | "toppdb" :: _ | "topeqhash" :: _ => handleTopo ws
   | _ => "bad-op"
 
 partial def loop (h : IO.FS.Stream) (out : IO.FS.Stream) : IO Unit := do
